@@ -82,6 +82,7 @@ type MyNode struct {
 	StartupUnix                      int64
 	WaitingAck                       bool // a commit is stuck waiting for a semi-sync ACK
 	StuckRO                          int  // number of SET read_only attempts that fail with 1205 before succeeding (-1 = always)
+	StuckUntilSSDisable              bool // SET read_only fails with 1205 until semi-sync is switched off (commits stuck waiting for an ACK)
 	ProcessIDs                       []int
 	LagWhenRunning                   float64
 	InstantRepl                      bool // replication progress is applied whenever the node is looked at
@@ -648,6 +649,9 @@ func (w *World) apply(n *MyNode, op, arg string) (cols []string, rows [][]string
 	case "is_readonly":
 		return one([]string{"ReadOnly", "SuperReadOnly"}, []string{b2s(n.ReadOnly), b2s(n.SuperReadOnly)})
 	case "set_ro_super", "set_ro_nosuper":
+		if n.StuckUntilSSDisable {
+			return nil, nil, false, 1205
+		}
 		if n.StuckRO != 0 {
 			if n.StuckRO > 0 {
 				n.StuckRO--
@@ -709,6 +713,7 @@ func (w *World) apply(n *MyNode, op, arg string) (cols []string, rows [][]string
 	case "ss_disable":
 		n.SemiMaster, n.SemiSlave = false, false
 		n.WaitingAck = false
+		n.StuckUntilSSDisable = false
 	case "ss_wait_count":
 		n.WaitCount, _ = strconv.Atoi(arg)
 	case "events":
